@@ -83,6 +83,9 @@ class Callable(object):
         self.kind = kind          # function | classop | instop | bridge | derived
         self.name = name
         self.params = params      # [(name, ty)]
+        # kind:name, and kind:home.name for the elements that are named like an element of another home
+        self.key = '%s:%s' % (kind, name) if (kind, name, cls) not in (('classop', 'cop', 'B'), ('bridge', 'b0', 'ZEE')) \
+            else '%s:%s.%s' % (kind, cls, name)
         self.ret = ret            # OAL type or None
         self.cls = cls            # class KL for operations / derived, EE key letters for bridges
         self.body = None          # AST
@@ -302,7 +305,9 @@ def gen_graph(ints, for_prebuild=False, logical_calls=False, states=None):
     order = []
     specs = [('function', 'f0', None), ('bridge', 'b0', 'MYEE'), ('instop', 'iop', 'A'), ('function', 'f1', None),
              ('classop', 'cop', 'A'), ('instop', 'bop', 'B'), ('derived', 'da', 'A'), ('function', 'f2', None),
-             ('bridge', 'b1', 'MYEE')]
+             ('bridge', 'b1', 'MYEE'),
+             # equally named elements of different homes: an operation `cop` on another class, a bridge `b0` on another entity
+             ('classop', 'cop', 'B'), ('bridge', 'b0', 'ZEE')]
     n = 3 + t.pick(len(specs) - 2)
     features = set()
     t0 = t
@@ -486,7 +491,8 @@ def diagram_with(callables, enum_order, kwcase=None, second_group=False):
     D['types'].append({'name': 'Color', 'kind': 'enum', 'enumerators': list(ENUM), 'parent': ['pkg', 2]})
     D['constants'].append({'name': 'Limits', 'parent': ['pkg', 2],
                            'items': [{'name': n, 'type': ty, 'value': v} for n, ty, v in CONSTS]})
-    ee = {'name': 'My EE', 'kl': 'MYEE', 'parent': ['pkg', 2], 'bridges': []}
+    ees = {'MYEE': {'name': 'My EE', 'kl': 'MYEE', 'parent': ['pkg', 2], 'bridges': []},
+           'ZEE': {'name': 'Z EE', 'kl': 'ZEE', 'parent': ['pkg', 2], 'bridges': []}}
     for udt, base in sorted(UDT_BASE.items()):
         D['types'].append({'name': udt, 'kind': 'udt', 'base': base, 'parent': ['pkg', 2]})
     for c in callables:
@@ -497,14 +503,15 @@ def diagram_with(callables, enum_order, kwcase=None, second_group=False):
         if c.kind == 'function':
             D['functions'].append({'name': c.name, 'ret': ret, 'params': params, 'body': c.text, 'parent': ['pkg', 2]})
         elif c.kind == 'bridge':
-            ee['bridges'].append({'name': c.name, 'ret': ret, 'params': params, 'body': c.text})
+            ees[c.cls]['bridges'].append({'name': c.name, 'ret': ret, 'params': params, 'body': c.text})
         elif c.kind in ('classop', 'instop'):
             D['classes'][ix[c.cls]]['ops'].append({'name': c.name, 'instance': c.kind == 'instop', 'ret': ret,
                                                    'params': params, 'body': c.text})
         elif c.kind == 'derived':
             D['classes'][ix[c.cls]]['attrs'].append({'name': c.name, 'type': 'integer', 'derived': c.text})
-    if ee['bridges']:
-        D['ees'].append(ee)
+    for kl in ('MYEE', 'ZEE'):
+        if ees[kl]['bridges']:
+            D['ees'].append(ees[kl])
     states = [c for c in callables if c.kind in ('state', 'txn')]
     if states:
         for mi, sm in enumerate(SM_DEFS):
@@ -647,7 +654,7 @@ def run_case(case, res=None):
         callables, features, domain, text = build(case)
     except Exception as e:
         raise Violation('component-build-exception:' + exc_bucket(e), case, repr(e))
-    info = dict(case, bodies=dict((c.kind + ':' + c.name, c.text) for c in callables))
+    info = dict(case, bodies=dict((c.key, c.text) for c in callables))
 
     def fail(bucket, detail):
         raise Violation(bucket, info, detail)
@@ -705,7 +712,7 @@ def run_case(case, res=None):
                     elif c.kind == 'function':
                         domain.find_symbol(c.name)()
                     elif c.kind == 'bridge':
-                        getattr(domain.find_symbol('MYEE'), c.name)()
+                        getattr(domain.find_symbol(c.cls), c.name)()
                     elif c.kind == 'classop':
                         getattr(domain.find_class(c.cls), c.name)()
             except TimeLimit.Expired:
@@ -737,7 +744,7 @@ def run_case(case, res=None):
                 if c.kind == 'function':
                     got = domain.find_symbol(c.name)(**args)
                 elif c.kind == 'bridge':
-                    got = getattr(domain.find_symbol('MYEE'), c.name)(**args)
+                    got = getattr(domain.find_symbol(c.cls), c.name)(**args)
                 elif c.kind == 'classop':
                     got = getattr(domain.find_class(c.cls), c.name)(**args)
                 else:
